@@ -22,6 +22,9 @@ func fpSort(w uint8) (int, int) {
 
 // fp converts a bit-pattern value to an SMT FloatingPoint term.
 func (it *Interp) fp(i Int) *sym.Term {
+	if i.T != nil && i.T.Op == "app:fp.to_ieee_bv" {
+		return i.T.Args[0] // to_fp(to_ieee_bv(x)) = x (NaN payloads are not tracked through arithmetic)
+	}
 	eb, sb := fpSort(i.W)
 	return it.ctx.App(fmt.Sprintf("(_ to_fp %d %d)", eb, sb), sym.Sort{K: sym.KBV, W: -int(i.W)}, it.term(i))
 }
@@ -632,6 +635,34 @@ func (it *Interp) floatToFloat(i Int, tw uint8) Int {
 			return CInt(32, uint64(math.Float32bits(float32(math.Float64frombits(i.C)))))
 		}
 		return CInt(64, math.Float64bits(float64(math.Float32frombits(uint32(i.C)))))
+	}
+	// bit-level widening when the float32 exponent field is a constant of a normal number
+	if tw == 64 {
+		e := it.ctx.Extract(30, 23, i.T)
+		if e.IsConst && e.C != 0 && e.C != 255 {
+			c := it.ctx
+			hi := c.Concat(c.Extract(31, 31, i.T), c.BV(11, e.C+896))
+			return it.fromTerm(c.Concat(c.Concat(hi, c.Extract(22, 0, i.T)), c.BV(29, 0)))
+		}
+		if e.IsConst && e.C == 255 {
+			c := it.ctx
+			hi := c.Concat(c.Extract(31, 31, i.T), c.BV(11, 2047))
+			return it.fromTerm(c.Concat(c.Concat(hi, c.Extract(22, 0, i.T)), c.BV(29, 0)))
+		}
+		if e.IsConst && e.C == 0 {
+			// zero / subnormal float32: normalise with a priority encoder over the 23 mantissa bits
+			c := it.ctx
+			sign := c.BVBin("bvshl", c.ZExt(63, c.Extract(31, 31, i.T)), c.BV(64, 63))
+			m := c.ZExt(41, c.Extract(22, 0, i.T))
+			acc := sign // mantissa == 0
+			for p := 0; p <= 22; p++ {
+				bit := c.Eq(c.Extract(p, p, i.T), c.BV(1, 1))
+				frac := c.BVBin("bvand", c.BVBin("bvshl", m, c.BV(64, uint64(52-p))), c.BV(64, (uint64(1)<<52)-1))
+				v := c.BVBin("bvor", sign, c.BVBin("bvor", c.BV(64, uint64(1023-149+p)<<52), frac))
+				acc = c.Ite(bit, v, acc)
+			}
+			return it.fromTerm(acc)
+		}
 	}
 	eb, sb := fpSort(tw)
 	return it.fromFP(it.ctx.App(fmt.Sprintf("(_ to_fp %d %d) RNE", eb, sb), sym.Sort{K: sym.KBV, W: -int(tw)}, it.fp(i)), tw)
